@@ -1,3 +1,4 @@
+import FxpVerif.Model.Resize
 import FxpVerif.Driver.Proto
 /-! One function per protocol op: parse arguments, run the model, print
 `<A> <S> <model observables>` where `A` = the observed output agrees with the model on the property's
@@ -1003,6 +1004,24 @@ def opEX2 (args obs : List String) : P String := do
       | _ => pure (reply false false m)
   | _ => throw "EX: arity"
 
+def pOpt {α} (f : String → P α) (t : String) : P (Option α) :=
+  if t == "-" then pure none else do pure (some (← f t))
+
+/-- `RZ <old fmt> <signed|-> <n_word|-> <n_frac|-> <n_int|-> <dtype|-> | s n f n_int` — size resolution of `resize`
+(an object of the old format is resized with exactly these keyword arguments). -/
+def opRZ (args obs : List String) : P String := do
+  match args with
+  | [s, n, f, sg, w, fr, ni, dt] =>
+    let old ← pFmt s n f
+    let a : ResizeArgs := { signed := ← pOpt pBool sg, nword := ← pOpt pInt w, nfrac := ← pOpt pInt fr,
+                            nint := ← pOpt pInt ni, dtype := (if dt == "-" then none else some dt.toList) }
+    match resizeMeta old.meta a with
+    | none => pure (reply (isExc obs) (isExc obs) ["ERR"])
+    | some m =>
+      if m.nword < 1 ∨ (m.signed ∧ m.nword < 1) then pure (reply (isExc obs) (isExc obs) ["ERR"]) else
+      pure (functional [showSigned m.signed, toString m.nword, toString m.nfrac, toString m.nint] obs)
+  | _ => throw "RZ: arity"
+
 /-- `UN <op=neg|pos|abs> <fx> [codes] | s n f [codes]` — unary operators build a default-config object. -/
 def opUN (args obs : List String) : P String := do
   match args with
@@ -1028,6 +1047,7 @@ def dispatch (op : String) (args obs : List String) : P String :=
   | "I5" => opI5 args obs
   | "M5" => opM5 args obs
   | "AR" => opAR args obs
+  | "RZ" => opRZ args obs
   | "EXPR" => opEX2 args obs
   | "AO" => opAO args obs
   | "UN" => opUN args obs
